@@ -3,8 +3,9 @@
 
    A case is a Guppy function whose body is one `with` statement (or two nested ones)
    carrying a stack of modifier items over {dagger, control(q), control(q, q'),
-   control(array), power(var), power(literal)} around a body that uses captured qubits,
-   a captured qubit array and a captured classical value.
+   control(array), control(array[0]), power(var), power(literal), power(g(q)) - an exponent
+   computed by a call that borrows a qubit the body also uses} around a body that uses
+   captured qubits, a captured qubit array and a captured classical value.
 
    Two descriptions of the lowering are given and compared by TLC:
 
@@ -32,18 +33,22 @@
 EXTENDS Naturals, Sequences, FiniteSets, TLC, Json
 
 CONSTANTS MaxLen,         \* longest stack of a single (non-nested) with
+          MaxLenNew,      \* longest stack that contains control(array[0]) or power(g(q)) items
           MaxOuter,       \* longest outer stack of a nested with
           MaxInner,       \* longest inner stack of a nested with
           Bodies,         \* bodies used with single blocks
           NestedBodies    \* bodies used with nested blocks
 
-Kinds == {"D", "C1", "C2", "CA", "PV", "PL"}
-Stacks(n) == UNION {[1..k -> Kinds] : k \in 1..n}
+BaseKinds == {"D", "C1", "C2", "CA", "PV", "PL"}
+Kinds == BaseKinds \cup {"CS", "PG"}      \* CS = control(s[0]), PG = power(g(q))
+Min(a, b) == IF a < b THEN a ELSE b
+Stacks(n) == UNION {[1..k -> BaseKinds] : k \in 1..n} \cup UNION {[1..k -> Kinds] : k \in 1..Min(n, MaxLenNew)}
 
 \* names by item position (positions of an inner stack continue after the outer one)
 QA == <<"a1", "a2", "a3", "a4">>      \* first qubit of a control item
 QB == <<"b1", "b2", "b3", "b4">>      \* second qubit of a two-qubit control item
 QR == <<"r1", "r2", "r3", "r4">>      \* array[qubit, 3] of an array control item
+QS == <<"s1", "s2", "s3", "s4">>      \* array[qubit, 2] whose element 0 is a control (control(s[0]))
 PK == <<"k1", "k2", "k3", "k4">>      \* nat variable of a power item
 PLit == <<"#2", "#3", "#4", "#5">>    \* literal exponent of a power item (position + 1)
 
@@ -53,6 +58,8 @@ Item(kind, p) ==
       [] kind = "C1" -> Mod("Control", 1, <<QA[p]>>, FALSE, "-")
       [] kind = "C2" -> Mod("Control", 2, <<QA[p], QB[p]>>, FALSE, "-")
       [] kind = "CA" -> Mod("Control", 3, <<QR[p]>>, TRUE, "-")
+      [] kind = "CS" -> Mod("Control", 1, <<QS[p] \o "[0]">>, FALSE, "-")
+      [] kind = "PG" -> Mod("Power", 0, <<>>, FALSE, "g(q)")
       [] kind = "PV" -> Mod("Power", 0, <<>>, FALSE, PK[p])
       [] kind = "PL" -> Mod("Power", 0, <<>>, FALSE, PLit[p])
 Items(stack, base) == [i \in 1..Len(stack) |-> Item(stack[i], base + i)]
@@ -66,17 +73,20 @@ Expected(stack, base) == Items(stack, base)     \* outermost first = source orde
 
 \* ---- shapes on which the implementation's normal form differs ------------------------------
 Before(stack, x, y) == \E i, j \in DOMAIN stack : i < j /\ stack[i] \in x /\ stack[j] \in y
-Ctl == {"C1", "C2", "CA"}
-Pow == {"PV", "PL"}
-Arity(k) == CASE k = "C1" -> 1 [] k = "C2" -> 2 [] k = "CA" -> 3 [] OTHER -> 0
+Ctl == {"C1", "C2", "CA", "CS"}
+Pow == {"PV", "PL", "PG"}
+Arity(k) == CASE k = "C1" -> 1 [] k = "C2" -> 2 [] k = "CA" -> 3 [] k = "CS" -> 1 [] OTHER -> 0
 CtlArities(stack) == LET c == SelectSeq(stack, LAMBDA k : k \in Ctl) IN [i \in 1..Len(c) |-> Arity(c[i])]
+\* exponents of the power items, abstractly: every var/literal item has its own, all g(q) items the same
+PowKeys(stack) == LET idx == SelectSeq([i \in 1..Len(stack) |-> i], LAMBDA i : stack[i] \in Pow)
+                  IN [n \in 1..Len(idx) |-> IF stack[idx[n]] = "PG" THEN 0 ELSE idx[n]]
 \* fixed: the variant of the control emission (see variable ctlfix below)
 Classes(stack, fixed) ==
     (IF Cardinality({i \in DOMAIN stack : stack[i] = "D"}) >= 2 THEN {"dagger-repeated"} ELSE {})
     \cup (IF Before(stack, {"D"}, Ctl) THEN {"dagger-before-control"} ELSE {})
     \cup (IF Before(stack, {"D"}, Pow) THEN {"dagger-before-power"} ELSE {})
     \cup (IF Before(stack, Pow, Ctl) THEN {"power-before-control"} ELSE {})
-    \cup (IF Cardinality({i \in DOMAIN stack : stack[i] \in Pow}) >= 2 THEN {"power-repeated"} ELSE {})
+    \cup (IF PowKeys(stack) # Reverse(PowKeys(stack)) THEN {"power-repeated"} ELSE {})
     \cup (IF ~fixed /\ CtlArities(stack) # Reverse(CtlArities(stack)) THEN {"control-arities-crossed"} ELSE {})
 
 StackFlags(stack) ==
@@ -107,39 +117,53 @@ Uses(b, v) ==       \* gates met by variable v, in body order, with the operand 
     IN [n \in 1..Len(idx) |-> Ev("gate", 0, 0, 0, ops[idx[n]].g,
                                   (CHOOSE j \in DOMAIN ops[idx[n]].args : ops[idx[n]].args[j] = v) - 1)]
 
-\* control variables of a block: name -> <<slot, elem>>; slot = index among the control items
-CtlItems(stack, base) == Sel(Items(stack, base), "Control")
-CtlNames(stack, base) == UNION {{CtlItems(stack, base)[s].src[e] : e \in DOMAIN CtlItems(stack, base)[s].src}
-                                : s \in DOMAIN CtlItems(stack, base)}
+\* control variables of a block (the function parameters borrowed by its control items) and
+\* the call slot / element through which each travels; slot = index among the control items
+ItemVars(kind, p) == CASE kind = "C1" -> <<QA[p]>> [] kind = "C2" -> <<QA[p], QB[p]>>
+                       [] kind = "CA" -> <<QR[p]>> [] kind = "CS" -> <<QS[p]>> [] OTHER -> <<>>
+Range(f) == {f[x] : x \in DOMAIN f}
+CtlIdx(stack) == SelectSeq([i \in 1..Len(stack) |-> i], LAMBDA i : stack[i] \in Ctl)
+CtlNames(stack, base) == UNION {Range(ItemVars(stack[i], base + i)) : i \in {j \in DOMAIN stack : stack[j] \in Ctl}}
 CtlEvent(stack, base, v, depth) ==
-    LET c == CtlItems(stack, base)
-        s == CHOOSE s \in DOMAIN c : \E e \in DOMAIN c[s].src : c[s].src[e] = v
-        e == CHOOSE e \in DOMAIN c[s].src : c[s].src[e] = v
-    IN Ev("ctrl", depth, s - 1, IF c[s].isarr THEN NoElem ELSE e - 1, "-", 0)
+    LET idx == CtlIdx(stack)
+        s == CHOOSE s \in DOMAIN idx : v \in Range(ItemVars(stack[idx[s]], base + idx[s]))
+        vs == ItemVars(stack[idx[s]], base + idx[s])
+        e == CHOOSE e \in DOMAIN vs : vs[e] = v
+    IN Ev("ctrl", depth, s - 1, IF stack[idx[s]] = "CA" THEN NoElem ELSE e - 1, "-", 0)
 PowVars(stack, base) == {Items(stack, base)[i].opnd : i \in {j \in DOMAIN stack : stack[j] = "PV"}}
+NumPG(stack) == Cardinality({i \in DOMAIN stack : stack[i] = "PG"})
+HasPG(stack) == NumPG(stack) > 0
+GCalls(n) == [k \in 1..n |-> Ev("gate", 0, 0, 0, "call:g", 0)]      \* g(q) evaluated n times
 
 \* ---- cases --------------------------------------------------------------------------------------
 Case(outer, inner, body) == [outer |-> outer, inner |-> inner, body |-> body]
 Nested(c) == Len(c.inner) > 0
-\* expected route of every linear variable
-Routes(c) ==
-    LET no == Len(c.outer)
-        oc == CtlNames(c.outer, 0)
-        ic == IF Nested(c) THEN CtlNames(c.inner, no) ELSE {}
-        bl == BodyLinear(c.body)
-        cap(d) == Ev("cap", d, 0, 0, "-", 0)
-    IN [v \in oc \cup ic \cup bl |->
-          IF v \in oc THEN <<CtlEvent(c.outer, 0, v, 0)>>
-          ELSE IF v \in ic THEN <<cap(0), CtlEvent(c.inner, no, v, 1)>>
-          ELSE IF Nested(c) THEN <<cap(0), cap(1)>> \o Uses(c.body, v)
-          ELSE <<cap(0)>> \o Uses(c.body, v)]
 \* captured (non-control) inputs of each block's call: set of names
 Captured(c) ==
     LET no == Len(c.outer)
         inner == BodyVars(c.body)
     IN IF Nested(c)
-       THEN << CtlNames(c.inner, no) \cup PowVars(c.inner, no) \cup inner, inner >>
+       THEN << CtlNames(c.inner, no) \cup PowVars(c.inner, no) \cup (IF HasPG(c.inner) THEN {"q"} ELSE {}) \cup inner,
+               inner >>
        ELSE << inner >>
+\* expected route of every linear variable: control qubits enter their block's call in their
+\* slot; body variables are captured by every enclosing block; q additionally passes through
+\* g(q) once per power(g(q)) item, where that item is evaluated (before the call of its block)
+Routes(c) ==
+    LET no == Len(c.outer)
+        oc == CtlNames(c.outer, 0)
+        ic == IF Nested(c) THEN CtlNames(c.inner, no) ELSE {}
+        bl == BodyLinear(c.body) \cup (IF HasPG(c.outer) \/ HasPG(c.inner) THEN {"q"} ELSE {})
+        cap(d) == Ev("cap", d, 0, 0, "-", 0)
+        qin(v, l) == v \in Captured(c)[l]
+    IN [v \in oc \cup ic \cup bl |->
+          IF v \in oc THEN <<CtlEvent(c.outer, 0, v, 0)>>
+          ELSE IF v \in ic THEN <<cap(0), CtlEvent(c.inner, no, v, 1)>>
+          ELSE (IF v = "q" THEN GCalls(NumPG(c.outer)) ELSE <<>>)
+               \o (IF qin(v, 1) THEN <<cap(0)>> ELSE <<>>)
+               \o (IF Nested(c) /\ v = "q" THEN GCalls(NumPG(c.inner)) ELSE <<>>)
+               \o (IF Nested(c) /\ qin(v, 2) THEN <<cap(1)>> ELSE <<>>)
+               \o (IF v \in BodyLinear(c.body) THEN Uses(c.body, v) ELSE <<>>)]
 GateNames(b) == [i \in DOMAIN BodyOps(b) |-> BodyOps(b)[i].g]
 
 \* ---- (2) the implementation's algorithm -----------------------------------------------------------
@@ -148,8 +172,12 @@ GateNames(b) == [i \in DOMAIN BodyOps(b) |-> BodyOps(b)[i].g]
 \* in source order); TRUE = control items wrapped last-to-first (first control outermost), which is
 \* the repair proposed for the crossed arities.  Both variants are explored and printed; the
 \* conformance check accepts the compiled chain of either (and reports the classes of that one).
-VARIABLES pc, cs, ctlfix, lvl, i, dag, ctl, pow, fn, fnin, args, res
-vars == <<pc, cs, ctlfix, lvl, i, dag, ctl, pow, fn, fnin, args, res>>
+\* qver / capver model the rebinding of the captured qubit q: evaluating g(q) for a power operand
+\* rebinds q to the call's output (qver + 1); the implementation reads the wires of the captured
+\* variables (ReadCaptured) BEFORE it compiles the power operands, so the call consumes a stale
+\* wire of q whenever q is both captured and borrowed by an operand (linok = FALSE).
+VARIABLES pc, cs, ctlfix, lvl, i, dag, ctl, pow, fn, fnin, args, res, qver, capver
+vars == <<pc, cs, ctlfix, lvl, i, dag, ctl, pow, fn, fnin, args, res, qver, capver>>
 
 CurStack == IF lvl = 1 THEN cs.outer ELSE cs.inner
 CurBase == IF lvl = 1 THEN 0 ELSE Len(cs.outer)
@@ -157,18 +185,19 @@ CurItems == Items(CurStack, CurBase)
 
 Init == /\ pc = "outer" /\ cs = Case(<<>>, <<>>, "empty") /\ ctlfix \in BOOLEAN /\ lvl = 1 /\ i = 1
         /\ dag = <<>> /\ ctl = <<>> /\ pow = <<>> /\ fn = <<>> /\ fnin = <<>> /\ args = <<>> /\ res = <<>>
+        /\ qver = 0 /\ capver = 0
 
 ChooseOuter == /\ pc = "outer"
                /\ \E s \in Stacks(MaxLen) : cs' = [cs EXCEPT !.outer = s]
                /\ pc' = "inner"
-               /\ UNCHANGED <<ctlfix, lvl, i, dag, ctl, pow, fn, fnin, args, res>>
+               /\ UNCHANGED <<ctlfix, lvl, i, dag, ctl, pow, fn, fnin, args, res, qver, capver>>
 ChooseInnerBody ==
     /\ pc = "inner"
     /\ \/ \E b \in Bodies : cs' = [cs EXCEPT !.body = b]
        \/ /\ Len(cs.outer) <= MaxOuter
           /\ \E s \in Stacks(MaxInner), b \in NestedBodies : cs' = [cs EXCEPT !.inner = s, !.body = b]
     /\ pc' = "push"
-    /\ UNCHANGED <<ctlfix, lvl, i, dag, ctl, pow, fn, fnin, args, res>>
+    /\ UNCHANGED <<ctlfix, lvl, i, dag, ctl, pow, fn, fnin, args, res, qver, capver>>
 
 \* ModifiedBlock.push_modifier: items are sorted by kind into three lists
 Push == /\ pc = "push"
@@ -177,19 +206,25 @@ Push == /\ pc = "push"
                 /\ ctl' = IF CurItems[i].op = "Control" THEN Append(ctl, CurItems[i]) ELSE ctl
                 /\ pow' = IF CurItems[i].op = "Power" THEN Append(pow, CurItems[i]) ELSE pow
                 /\ i' = i + 1 /\ pc' = pc
-           ELSE /\ pc' = "dagger" /\ i' = 1 /\ UNCHANGED <<dag, ctl, pow>>
-        /\ UNCHANGED <<cs, ctlfix, lvl, fn, fnin, args, res>>
+           ELSE /\ pc' = "read" /\ i' = 1 /\ UNCHANGED <<dag, ctl, pow>>
+        /\ UNCHANGED <<cs, ctlfix, lvl, fn, fnin, args, res, qver, capver>>
+\* `args = [dfg[v] for v in captured]` - placed before "Apply modifiers" in compile_modified_block
+ReadCaptured == /\ pc = "read"
+                /\ capver' = qver
+                /\ pc' = "dagger"
+                /\ UNCHANGED <<cs, ctlfix, lvl, i, dag, ctl, pow, fn, fnin, args, res, qver>>
 \* `if modified_block.has_dagger()` - one DaggerModifier iff the number of daggers is odd
 EmitDagger == /\ pc = "dagger"
               /\ fn' = IF Len(dag) % 2 = 1 THEN Append(fn, Mod("Dagger", 0, <<>>, FALSE, "-")) ELSE fn
               /\ pc' = "power"
-              /\ UNCHANGED <<cs, ctlfix, lvl, i, dag, ctl, pow, fnin, args, res>>
+              /\ UNCHANGED <<cs, ctlfix, lvl, i, dag, ctl, pow, fnin, args, res, qver, capver>>
 \* `for power in modified_block.power` - in source order, applied on top of each other
 EmitPower == /\ pc = "power"
              /\ IF i <= Len(pow)
-                THEN fn' = Append(fn, Mod("Power", 0, <<>>, FALSE, pow[i].opnd)) /\ i' = i + 1 /\ pc' = pc
-                ELSE fn' = fn /\ i' = 1 /\ pc' = "control"
-             /\ UNCHANGED <<cs, ctlfix, lvl, dag, ctl, pow, fnin, args, res>>
+                THEN /\ fn' = Append(fn, Mod("Power", 0, <<>>, FALSE, pow[i].opnd)) /\ i' = i + 1 /\ pc' = pc
+                     /\ qver' = IF pow[i].opnd = "g(q)" THEN qver + 1 ELSE qver      \* g(q) rebinds q
+                ELSE fn' = fn /\ i' = 1 /\ pc' = "control" /\ qver' = qver
+             /\ UNCHANGED <<cs, ctlfix, lvl, dag, ctl, pow, fnin, args, res, capver>>
 \* `for control in modified_block.control` - the new array type is PREPENDED to the inputs
 EmitControl == /\ pc = "control"
                /\ IF i <= Len(ctl)
@@ -198,12 +233,12 @@ EmitControl == /\ pc = "control"
                           /\ fnin' = <<ctl[k].arity>> \o fnin
                        /\ i' = i + 1 /\ pc' = pc
                   ELSE fn' = fn /\ fnin' = fnin /\ i' = 1 /\ pc' = "args"
-               /\ UNCHANGED <<cs, ctlfix, lvl, dag, ctl, pow, args, res>>
+               /\ UNCHANGED <<cs, ctlfix, lvl, dag, ctl, pow, args, res, qver, capver>>
 \* "Prepare control arguments": one array per control item, in source order
 PrepareArgs == /\ pc = "args"
                /\ args' = [k \in 1..Len(ctl) |-> [src |-> ctl[k].src, isarr |-> ctl[k].isarr]]
                /\ pc' = "call"
-               /\ UNCHANGED <<cs, ctlfix, lvl, i, dag, ctl, pow, fn, fnin, res>>
+               /\ UNCHANGED <<cs, ctlfix, lvl, i, dag, ctl, pow, fn, fnin, res, qver, capver>>
 \* observable chain of the emitted call: ops outermost first; the k-th Control op (counted
 \* from the outside) owns input slot k of the call and therefore receives args[k]
 Lowered ==
@@ -215,13 +250,15 @@ Lowered ==
           ELSE out[n]]
 Call == /\ pc = "call"
         /\ res' = Append(res, [chain |-> Lowered, fnin |-> fnin,
-                               argar |-> [k \in 1..Len(args) |-> IF args[k].isarr THEN 3 ELSE Len(args[k].src)]])
+                               argar |-> [k \in 1..Len(args) |-> IF args[k].isarr THEN 3 ELSE Len(args[k].src)],
+                               linok |-> ("q" \notin Captured(cs)[lvl]) \/ capver = qver])
         /\ IF lvl = 1 /\ Nested(cs)
            THEN /\ lvl' = 2 /\ pc' = "push" /\ i' = 1
                 /\ dag' = <<>> /\ ctl' = <<>> /\ pow' = <<>> /\ fn' = <<>> /\ fnin' = <<>> /\ args' = <<>>
-           ELSE /\ pc' = "done" /\ UNCHANGED <<lvl, i, dag, ctl, pow, fn, fnin, args>>
+                /\ qver' = 0 /\ capver' = 0
+           ELSE /\ pc' = "done" /\ UNCHANGED <<lvl, i, dag, ctl, pow, fn, fnin, args, qver, capver>>
         /\ UNCHANGED <<cs, ctlfix>>
-Next == ChooseOuter \/ ChooseInnerBody \/ Push \/ EmitDagger \/ EmitPower \/ EmitControl \/ PrepareArgs \/ Call
+Next == ChooseOuter \/ ChooseInnerBody \/ Push \/ ReadCaptured \/ EmitDagger \/ EmitPower \/ EmitControl \/ PrepareArgs \/ Call
 Spec == Init /\ [][Next]_vars
 
 \* ---- what is printed for the conformance check ------------------------------------------------------
@@ -233,6 +270,8 @@ Report == pc = "done" =>
                    expected |-> [l \in Levels |-> Expected(StackOf(l), BaseOf(l))],
                    lowered |-> [l \in Levels |-> res[l].chain],
                    welltyped |-> [l \in Levels |-> res[l].fnin = res[l].argar],
+                   linearok |-> [l \in Levels |-> res[l].linok],
+                   mayreject |-> (\E x \in Range(cs.outer) \cup Range(cs.inner) : x = "CS"),
                    classes |-> [l \in Levels |-> Classes(StackOf(l), ctlfix)],
                    unitary |-> [l \in Levels |-> FlagValue(StackFlags(StackOf(l)))],
                    routes |-> Routes(cs),
@@ -261,6 +300,9 @@ PowersPreserved == Done => \A l \in Levels :
     IN Len(m) = Len(e) /\ \A k \in DOMAIN m : m[k].opnd = e[Len(e) + 1 - k].opnd
 \* the repaired variant always produces a well-typed call
 FixIsWellTyped == (Done /\ ctlfix) => \A l \in Levels : res[l].fnin = res[l].argar
+\* the stale-wire defect arises exactly when an operand borrows the captured q
+StaleWireExact == Done => \A l \in Levels :
+    res[l].linok <=> ~(HasPG(StackOf(l)) /\ "q" \in Captured(cs)[l])
 DaggerByParity == Done => \A l \in Levels :
     CountOp(res[l].chain, "Dagger") = CountOp(Expected(StackOf(l), BaseOf(l)), "Dagger") % 2
 \* the flags recorded for the block agree with the operations emitted
